@@ -114,6 +114,7 @@ class CoherentArtifactAllSizes(Contract):
     functions = (f"{MOD}:_calculate_coherent_artifact_matrix",)
     strength = "U"
     trusted = (
+        *__import__('contracts.unbounded', fromlist=['WP_ASSUMPTIONS']).WP_ASSUMPTIONS,
         "numba compiles the kernels with Python semantics; nb.prange = range (C10 PrangeRaces); numpy contracts: elementwise arithmetic of 1-d arrays and scalars, np.exp elementwise, `a[:, c]` column view / column store, `a[i]` view",
         "exp uninterpreted; floats as reals",
     )
